@@ -42,6 +42,10 @@
  * Number of entries in the per-thread defer queue. Must be power of 2.
  */
 #define DEFER_QUEUE_SIZE	(1 << 12)
+#if defined(URCU_VERIF) && defined(URCU_VERIF_DEFER_QUEUE_SIZE)
+#undef DEFER_QUEUE_SIZE
+#define DEFER_QUEUE_SIZE	URCU_VERIF_DEFER_QUEUE_SIZE
+#endif
 #define DEFER_QUEUE_MASK	(DEFER_QUEUE_SIZE - 1)
 
 /*
@@ -235,7 +239,11 @@ static void rcu_defer_barrier_queue(struct defer_queue *queue,
 			p = uatomic_load(&(queue->q[i++ & DEFER_QUEUE_MASK]));
 		}
 		fct = queue->last_fct_out;
+#if defined(URCU_VERIF) && defined(URCU_VERIF_DEFER_CALL)
+		URCU_VERIF_DEFER_CALL(fct, p);
+#else
 		fct(p);
+#endif
 	}
 	cmm_smp_mb();	/* push tail after having used q[] */
 	uatomic_store(&queue->tail, i);
